@@ -63,7 +63,13 @@ def search(ctx, N):
         kind = int(rng.choice([0, 1, 3, 4, 5]))
         x = gen_nodes(rng, m, kind)
         x0 = float(rng.normal()) if t % 3 else float(x[rng.integers(0, m)])
-        w = fd_weights_all(x, x0, n)
+        try:
+            w = fd_weights_all(x, x0, n)
+            wn = fd_weights(x, x0, n)
+        except Exception as ex:   # noqa   n < len(x) is a valid request (n = 0 is the interpolation row)
+            if ctx.violation('raises', 'fd_weights_all / fd_weights(x, x0, n=%d) with %d nodes raises %r although n < len(x)' % (n, m, ex), {'x': x.tolist(), 'x0': x0, 'n': n}):
+                return
+            continue
         ctx.count(1)
         E = exact_weights(x, x0, n)
         for k in range(n + 1):
@@ -75,7 +81,7 @@ def search(ctx, N):
                                   'how': 'numdifftools.fornberg.fd_weights_all(x, x0, n)'}):
                     return
                 break
-        if not np.array_equal(fd_weights(x, x0, n), w[-1]):
+        if not np.array_equal(wn, w[-1]):
             if ctx.violation('row-n', 'fd_weights is not row n of fd_weights_all', {'x': x.tolist(), 'x0': x0, 'n': n}):
                 return
 
